@@ -48,6 +48,7 @@ type verifCmd struct {
 	URLs       int      `json:"urls,omitempty"`       // pump: number of distinct URL label values (default 4)
 	SignalAt   int      `json:"signal_at,omitempty"`  // pump: one interrupt is delivered after this many results were handed over (0 = none)
 	Feeders    int      `json:"feeders,omitempty"`    // pump: goroutines handing results over concurrently, as the workers of an attack do (default 1)
+	Network    string   `json:"network,omitempty"`    // resolver: network of the dials (default udp)
 }
 
 type verifDial struct {
@@ -165,7 +166,11 @@ func verifRun(c verifCmd) (a verifAns) {
 				<-start
 				for d := 0; d < c.Dials; d++ {
 					t0 := time.Since(base)
-					conn, err := res.Dial(context.Background(), "udp", "192.0.2.1:53")
+					network := c.Network
+					if network == "" {
+						network = "udp"
+					}
+					conn, err := res.Dial(context.Background(), network, "192.0.2.1:53")
 					t1 := time.Since(base)
 					rec := verifDial{G: i, Call: int64(t0), Return: int64(t1)}
 					if err != nil {
